@@ -40,6 +40,32 @@ def run(run, scr, tier, seed, only=None):
     run.functions += ['src/conversion.rs::{hint_bit_unpack, hint_bit_pack, bit_unpack, bit_pack, simple_bit_pack}', 'src/helpers.rs::is_in_range']
     run.assumptions += TRUSTED + ['sig_decode / pk_decode / sk_decode / w1_encode section arithmetic (offsets, lengths) is covered by the dataflow-skeleton obligations of C02/C09',
                                   'eta sections: acceptance == range rule is C10']
+    # E2: section layout of the encodings (which bytes go to which (un)packer with which (a, b)), all three sets
+    import mir, layout, e2, diffnative
+    lres = []
+    try:
+        layout.run(mir.parse(mir.dump(scr, checked=True)), lres)
+        run.functions.append('MIR sig_decode / sig_encode / sk_decode / sk_encode / pk_decode / w1_encode (section layout)')
+    except e2.Refuse as ex:
+        run.inconclusive.append('layout obligations: translator refused: ' + str(ex))
+    lbad = []
+    for r in lres:
+        run.add_query({'name': r['name'], 'engine': 'E2 skeleton + SMT (byte ranges as terms in the loop index)', 'verdict': 'holds' if r['verdict'] == 'holds' else ('sat' if r['verdict'] == 'mismatch' else 'unknown'), 'detail': r['detail'][:300]})
+        if r['verdict'] == 'mismatch':
+            lbad.append(r)
+        elif r['verdict'] == 'refused':
+            run.inconclusive.append(r['name'] + ': ' + r['detail'][:200])
+    if lbad:
+        conf = []
+        for what in ('sign', 'verify', 'serdes'):
+            oc, msgs = diffnative.run(scr, what, seed=seed + 1, n_seeds=2, n_msgs=6)
+            if oc == 'fail':
+                conf.append((what, msgs[:2]))
+        path = vlib.save_replay('C08', 'layout', {'property': 'C08', 'kind': 'layout', 'mismatches': [(r['name'], r['detail']) for r in lbad], 'confirmed': conf})
+        if conf:
+            run.violation('layout-' + lbad[0]['name'][:50], f'{lbad[0]["name"]}: {lbad[0]["detail"][:300]}; confirmed natively: {conf[0]}', path)
+        else:
+            run.inconclusive.append(f'layout obligation fails but the differential tests agree with the reference: {lbad[0]["name"]}: {lbad[0]["detail"][:200]}')
     results = vlib.run_kani(scr, hs, jobs=7)
     run.add_kani_results(results)
     # every run also executes the native codec differential (real (K, omega), every malformation class): cheap, and it is what confirms a solver counterexample
